@@ -7,7 +7,7 @@
 # usage: seedrun_iso.sh <tier> <seed-id>[:<check>,<check>...] ...
 #   default check = the seed's own property (first three characters of the id)
 tier=$1; shift
-ISO=/var/tmp/iso
+ISO=${ISO:-/var/tmp/iso}
 mkdir -p $ISO/root/evidence /tmp/seedruns
 if [ ! -d $ISO/repo ]; then
   git -C /repo worktree add --detach $ISO/repo HEAD >/dev/null 2>&1 || exit 2
